@@ -24,6 +24,10 @@ pub fn shards_extra(_tier: &str) -> Vec<String> {
     for k in 0..8 {
         v.push(format!("x:binrec:{k}"));
     }
+    // header entries exchanged, repeated and repeated with a neighbouring number
+    for (k, m) in [("bdd", "ascii"), ("bcdd", "ascii"), ("bcdd", "bin")] {
+        v.push(format!("x:header:{k}:{m}"));
+    }
     v
 }
 
@@ -37,6 +41,10 @@ pub fn run_extra(ctx: &mut Ctx) {
             _ => unused5::<Zbdd>(ctx, false),
         },
         "binrec" => binrec(ctx, p[2].parse().unwrap()),
+        "header" => match p[2] {
+            "bdd" => header_lines::<Bdd>(ctx, false),
+            _ => header_lines::<Bcdd>(ctx, p[3] == "bin"),
+        },
         _ => panic!("bad shard"),
     }
 }
@@ -157,6 +165,88 @@ fn unused5<K: Io>(ctx: &mut Ctx, binary: bool) {
                 }
             }
             ctx.sample(|| json!({"kind": K::NAME, "n": 5, "order": model::order_str(order), "unused_variable": 2, "roots": [embed(0x6996, 2)], "binary": binary}));
+        });
+    }
+}
+
+/// The header of an exporter-written file with its entries (a) exchanged pairwise, (b) repeated at every
+/// position, (c) repeated at every position with every number of the entry increased / decreased by one.
+/// The importer may accept or reject each of these files, but it must not panic; a file of group (a) or (b)
+/// that it accepts carries the same information as the original and must denote the original functions.
+fn header_lines<K: Io>(ctx: &mut Ctx, binary: bool) {
+    let n = 3u32;
+    for roots in [vec![0x96u64, 0xe8], vec![0x80], vec![0x1b, 0x6a, 0xfe]] {
+        ctx.group(&format!("header entries, roots {roots:x?}"), |ctx| {
+            let mref = dd::fresh::<K>(n, &[0, 1, 2], 4096, 64, 1);
+            let fs: Vec<K::F> = roots.iter().map(|&t| K::build(&mref, t).unwrap()).collect();
+            let bytes = K::export(&mref, &fs, binary).expect("harness: export");
+            let pos = bytes.windows(7).position(|w| w == b"\n.nodes").expect("harness: no .nodes entry") + 1;
+            let (head, rest) = bytes.split_at(pos);
+            let lines: Vec<&[u8]> = head.split_inclusive(|&b| b == b'\n').collect();
+            let a = attrs(&[("kind", K::NAME), ("part", "header"), ("mode", if binary { "bin" } else { "ascii" })]);
+            let mut files: Vec<(String, Vec<u8>, bool)> = vec![];
+            let join = |ls: &[Vec<u8>]| -> Vec<u8> { ls.iter().flatten().copied().chain(rest.iter().copied()).collect() };
+            let owned: Vec<Vec<u8>> = lines.iter().map(|l| l.to_vec()).collect();
+            for i in 0..owned.len() {
+                for j in i + 1..owned.len() {
+                    let mut ls = owned.clone();
+                    ls.swap(i, j);
+                    files.push((format!("entries {i} and {j} exchanged"), join(&ls), true));
+                }
+            }
+            for i in 0..owned.len() {
+                // variants of entry i: itself, and each of its numbers +1 / -1
+                let text = String::from_utf8_lossy(&owned[i]).to_string();
+                let mut variants: Vec<(String, Vec<u8>, bool)> = vec![("repeated".into(), owned[i].clone(), true)];
+                let toks: Vec<&str> = text.trim_end().split(' ').collect();
+                for (ti, t) in toks.iter().enumerate() {
+                    if let Ok(x) = t.parse::<i64>() {
+                        for d in [-1i64, 1] {
+                            let mut tk: Vec<String> = toks.iter().map(|s| s.to_string()).collect();
+                            tk[ti] = (x + d).to_string();
+                            variants.push((format!("repeated with number {ti} changed by {d}"), format!("{}\n", tk.join(" ")).into_bytes(), false));
+                        }
+                    }
+                }
+                for (what, line, same) in variants {
+                    for at in 0..=owned.len() {
+                        let mut ls = owned.clone();
+                        ls.insert(at, line.clone());
+                        files.push((format!("entry {i} {what}, inserted at position {at}"), join(&ls), same));
+                    }
+                }
+            }
+            let mut accepted = 0u64;
+            for (what, file, same) in &files {
+                ctx.count("evaluations", 1);
+                let m2 = dd::fresh::<K>(n, &[0, 1, 2], 4096, 64, 1);
+                let case = || json!({"kind": K::NAME, "roots": roots, "binary": binary, "mutation": what, "file": String::from_utf8_lossy(file)});
+                match ctx.guarded(&a, case, || K::import(&m2, file)) {
+                    None => {
+                        std::mem::forget(m2);
+                    }
+                    Some(Err(_)) => {}
+                    Some(Ok(gs)) => {
+                        accepted += 1;
+                        ctx.count("nontrivial", 1);
+                        let refs: Vec<&K::F> = gs.iter().collect();
+                        let info = K::audit(&m2, &refs, true);
+                        let got: Vec<_> = gs.iter().map(|g| K::table(g)).collect();
+                        let mut a2 = a.clone();
+                        if let Some(e) = info.errors.first() {
+                            a2.insert("class".into(), "audit".into());
+                            ctx.viol(a2, case(), &format!("{} header of the file for roots {roots:x?}: {what}: accepted, but {e}", K::NAME));
+                        } else if *same && (got.len() != roots.len() || got.iter().zip(&roots).any(|(g, t)| g != &Ok(*t))) {
+                            a2.insert("class".into(), "header_order_changes_result".into());
+                            ctx.viol(a2, case(), &format!("{} header of the file for roots {roots:x?}: {what}: accepted, denotes {got:x?}", K::NAME));
+                        }
+                    }
+                }
+            }
+            ctx.outcome(&format!("header:{}:accepted={accepted}/{}", K::NAME, files.len()));
+            if accepted == 0 {
+                println!("M header mutation sweep accepted no file at all (vacuous)");
+            }
         });
     }
 }
